@@ -222,8 +222,15 @@ def domain(ctx):
         for pretty in (True, False):
             for seed in seeds:
                 cases.append({"gen": name, "args": args, "kwargs": kwargs, "pretty": pretty, "prefix": [], "seed": seed})
+    # terms that may lose their variable (optional_var) consist of a drawn number only: the rare draws (a zero, a decimal that is cut to 0.0)
+    # need many more seeds in the non-pretty mode than the other settings
+    for nt in ([4, 12, 18] if q else [4, 8, 12, 18, 26]):
+        for op in ("+", ["+", "-"], None):
+            for ovp in (0.5, 0.15):
+                for seed in range(100, 100 + (70 if q else 600)):
+                    cases.append({"gen": "simplify", "args": [nt], "kwargs": {"op": op, "optional_var": True, "optional_var_probability": ovp}, "pretty": False, "prefix": [], "seed": seed})
     # forced draw prefixes on the default / representative parameter settings
-    reps = [("simplify", [4], {"op": "+"}), ("simplify", [3], {"op": ["+", "-"]}), ("combine", [], {}), ("combine", [], {"min_terms": 2, "max_terms": 6, "powers": True}),
+    reps = [("simplify", [4], {"op": "+"}), ("simplify", [3], {"op": ["+", "-"]}), ("simplify", [3], {"op": "+", "optional_var": True, "optional_var_probability": 1.0}), ("combine", [], {}), ("combine", [], {"min_terms": 2, "max_terms": 6, "powers": True}),
             ("haystack", [], {}), ("blockers1", [2], {}), ("blockers2", [2], {}), ("binom2", [], {}), ("binom1", [], {})]
     for name, args, kwargs in reps:
         for pf in prefixes(k):
